@@ -72,6 +72,16 @@ CHECKS["C12"] = dict(
          "(quick) / <=3 (thorough) rules once under its own heading for every missing / show_rules combination.",
     note="Outside: jinja rendering and the text/html/yaml/syslog formatters' output syntax.")
 
+CHECKS["C20"] = dict(
+    text="Bounded symbolic execution of the real query desugaring / compilation / select code on generated trees whose node names "
+         "and attributes are unconstrained symbolic ints: every forest of <=3 (quick) / <=4 (thorough) nodes x two-level queries x "
+         "deep/roots/entry-point/parentless-document options, and every query form (literals, callables, Boolean terms, tuples "
+         "with attribute alternatives, any_/all_/child_query combinations, raising predicates) on a 3-node tree, compared with a "
+         "reference matcher evaluated under the same path condition; every Boolean term (depth<=2 / <=3) over atoms with "
+         "symbolic truth values: test() == compiled to_pyfunc() == direct boolean value.",
+    note="Each atom of a generated query has its own unconstrained symbolic constant. Outside: string predicates on names, raising "
+         "predicates nested inside boolean combinations, Entry.root's documented None for parentless results.")
+
 NOT_APPLICABLE = {
 }
 
